@@ -1422,13 +1422,22 @@ func genC04(g *Gen) {
 	}
 	// (d) fault-free transfers of many files whose data lags far behind the listing (source Opens
 	// held until the listing is complete, bounded stream): they must complete
+	// The first case of every run is forced above every buffering level of the receiver: all files
+	// are new (each one needs a writer) and their number exceeds writers-in-flight + diff channel +
+	// walker channel + both pipelines by a wide margin (>= 640 > 128 + 128 + 128 + 128 + slack), so
+	// that with the Opens held EVERY request is outstanding at once whatever the schedule is.
 	for i, nd := 0, g.Vol(2, 40); i < nd; i++ {
 		nf := 300 + r.Intn(500)
+		priorPct := 10
+		if i == 0 {
+			nf = 640 + r.Intn(160)
+			priorPct = 0
+		}
 		var view, prior []*MNode
 		for k := 0; k < nf; k++ {
 			f := c04File(fmt.Sprintf("f%04d", k), r.Intn(4), r.U64(), c04Mt+int64(k))
 			view = append(view, f)
-			if r.Chance(10) {
+			if r.Chance(priorPct) {
 				prior = append(prior, c04Clone(f))
 			}
 		}
@@ -1489,6 +1498,34 @@ func genC04(g *Gen) {
 			cls += "-held"
 		}
 		emit(in, cls)
+	}
+	// (e) cancellation in the window "diff finished, contents outstanding", forced: the writer of one
+	// regular file is stalled in its ContentHasher call (before it sends its request), every other
+	// entry completes, the receiver's diff consumes the end of the listing and waits for the
+	// writers; at quiescence the receiver's context (or all contexts) is cancelled, then the
+	// stalled writer goes on with a dead context.  Receive must fail and must not report success
+	// for the file that was never written - whatever the scheduler does.
+	for i, nw := 0, g.Vol(4, 60); i < nw; i++ {
+		pos, after := r.Intn(3), r.Intn(6)
+		var view, prior []*MNode
+		for k := 0; k < pos; k++ {
+			view = append(view, c04File(fmt.Sprintf("a%03d", k), r.Intn(4), r.U64(), c04Mt))
+		}
+		view = append(view, c04File("b-pivot", 1+r.Intn(3), r.U64(), c04Mt))
+		samePrior := r.Chance(50)
+		for k := 0; k < after; k++ {
+			f := c04File(fmt.Sprintf("c%04d", k), r.Intn(3), r.U64(), c04Mt+int64(k))
+			view = append(view, f)
+			if samePrior {
+				prior = append(prior, c04Clone(f))
+			}
+		}
+		a := 1
+		if i%4 == 3 {
+			a = 3
+		}
+		in := L(ViewSx(view), ViewSx(prior), L(NI(c04FCancel), NI(a), NI(0), NI(1), NI(pos+1)), NI(0), Pick(r, []Sx{NI(0), NI(1), NI(8), NI(64)}), NI(1+r.Intn(3)))
+		emit(in, "cancel-held-after-diff-writer-stalled")
 	}
 	for k, v := range c04Stats {
 		g.Note(k, v)
